@@ -148,6 +148,7 @@ typedef struct {
   int        tcp_close_after_answer; /* the server closes the stream right after each batch of answers it sent */
   int      dup_copies;             /* >1: every UDP reply that makes the client re-send is put on the wire this many times */
   int      tc_over_tcp;            /* the server truncates over TCP too (its answer does not fit in 64 KiB, or it is broken) */
+  int      tc_cut;                 /* its truncated UDP answers really are cut short: the datagram ends inside the last record */
   int        udp_answers_tc_over_tcp; /* when a TC was sent, TCP gets a normal answer */
   /* cookies (server side) */
   int        ck_mode;      /* 0 none, 1 valid, 2.. see cookie profile */
@@ -181,6 +182,7 @@ typedef struct {
   int      action;          /* what the server did with it */
   int      wellformed;
   int64_t  lib_timeout_after_us; /* ares_timeout() right after the API call returned (-1 unknown) */
+  int      garbage_says_tc;      /* the unparseable reply to it has this id and the QR and TC bits set: "ask again over TCP" */
   uint8_t  local_addr[16];
   int      probe_like;
   int      rule_idx;
